@@ -740,3 +740,22 @@ def r16(rr, repo):
             rr.ob('the ephemeral mark is the trailing "?" / "??" of the address, nothing else in it', tail_only, za.mod, n, witness=U(n.value)[:100], key='ephemeral-mark-is-a-suffix')
         else:
             rr.unresolved('how a source address is classified as ephemeral was not recognised', za.mod, n, witness=U(n.value)[:100], key='ephemeral-mark-is-a-suffix')
+
+
+@rule('C01.R17', "one id names one published set also when a publish fails half way: the topic messages of a set go out one by one (each encodes its own envelope), and one that can not be built or sent leaves the "
+                 "ones before it on the wire under the id - if the id were only used up after the closing message, the next set of the still running publisher would go out under the same id and complete the "
+                 "half set at every receiver (frames of two publishes in one set). On every publishing path of send_maybe the id is consumed (min_send_id = id + 1) BEFORE the first data frame goes out")
+def r17(rr, repo):
+    from .c02 import data_publishes, maybe_paths
+    za = anchors(repo)
+    n = 0
+    for p in maybe_paths(za):
+        pubs = data_publishes(p)
+        if not pubs:
+            continue
+        n += 1
+        st = [e for e in p.events if e.kind == 'store' and e.term == 'self.min_send_id']
+        first = p.events.index(pubs[0])
+        rr.ob('the id is used up before the first data frame of the set is handed to a socket', bool(st) and p.events.index(st[0]) < first, za.mod, pubs[0].node,
+              witness=f"store at line {st[0].node.lineno if st else '-'}, first data frame at line {pubs[0].node.lineno}", key='id-used-up-before-first-frame')
+    rr.floor('publishing paths of send_maybe', n, 1, za.mod, za.S_maybe)
